@@ -3,7 +3,7 @@
 P=$1; TAG=$2; TIER=${3:-quick}; DST=/verif/seeded/$TAG; WT=/tmp/sr-$TAG
 git -C /repo worktree remove --force $WT 2>/dev/null; rm -rf $WT
 git -C /repo worktree add -q $WT HEAD || exit 3
-PATCH=$DST/patch.diff; [ -f $DST/patch_rebased.diff ] && PATCH=$DST/patch_rebased.diff; git -C $WT apply $PATCH || { echo "PATCH DOES NOT APPLY on $(git -C /repo rev-parse --short HEAD)" | tee -a $DST/verify.log; git -C /repo worktree remove --force $WT; exit 4; }
+PATCH=$DST/patch.diff; [ -f $DST/patch_rebased.diff ] && PATCH=$DST/patch_rebased.diff; git -C $WT apply $PATCH 2>/dev/null || git -C $WT apply -C1 $PATCH || { echo "PATCH DOES NOT APPLY on $(git -C /repo rev-parse --short HEAD)" | tee -a $DST/verify.log; git -C /repo worktree remove --force $WT; exit 4; }
 cd /verif
 { echo "== recheck $TIER on $(git -C /repo rev-parse --short HEAD) at $(date -u +%FT%TZ)"; VERIF_REPO=$WT ./check $P --tier $TIER 2>&1 | grep -E "VIOLATION|KNOWN|tier=|INFRA|what fails|failing input" | cut -c1-400; } | tee -a $DST/verify.log
 git -C /repo worktree remove --force $WT 2>/dev/null; rm -rf $WT
